@@ -164,6 +164,38 @@ def seeds(x, p):
     lx.process_lines([src])
     x.out('n', len(lx.tokens))
     write_checks(x, lx.tokens, must_work=p.get('must_work', False))
+    spelling_check(x, lx.tokens)
+
+
+def code_tokens(tokens):
+    out = []
+    for t in tokens:
+        if isinstance(t, (lexer.TokSpace, lexer.TokNewline)):
+            continue
+        if isinstance(t, lexer.TokComment):
+            out.append(('comment', bytes(K.nonws(t.code))))
+        else:
+            out.append((type(t).__name__, bytes(t.code)))
+    return out
+
+
+def spelling_check(x, toks):
+    """Token by token: the formatted text lexes to the same tokens with the
+    same spelling - white space *inside* a token (a long string that spans
+    lines, a quoted string with blanks) is not the formatter's to change;
+    comments are compared up to the white space inside them."""
+    p = parser.Parser(version=8)
+    try:
+        p.process_tokens(toks)
+        w = lua.LuaFormatterWriter(tokens=toks, root=p.root,
+                                   args={'indentwidth': 2})
+        out = b''.join(w.to_lines())
+        lx2 = lexer.Lexer(version=8)
+        lx2.process_lines([out])
+    except Exception:
+        return          # refusals are judged by write_checks
+    x.check('every token keeps its exact spelling, in order',
+            code_tokens(lx2.tokens) == code_tokens(toks))
 
 
 # (code, fully parsed?, expected formatted text as a function of the width)
@@ -259,6 +291,9 @@ SEEDS = ['x=1\na |= 1\ny=2\n', '?x,y\nz=1\n', '', '--c', 'x=1', 't={1,2}',
          'if (x) a=1 else c=3\nb=2\n', 't={1 ,2 ;3 , x=4 ,}\n',
          't={1 -- c\n ,2\n ;\n 3}\n', 'x=1\ry=2\rif (a) b=1\rc=3\r',
          'x=1 -- c\ry=2\r', 'function a.b.c.d:e() end\n']
+NO_TAIL = sorted(set(
+    '\n'.join(s_.split('\n')[:k]).rstrip() for s_ in P8.EVERY
+    for k in range(1, len(s_.split('\n')) + 1)) - set(['']))
 HARNESSES = [
     Harness('kernel', kernel, quick=KQ,
             thorough=KQ + [dict(Q, n=3, at_start=False, at_eof=e, indent=1,
@@ -276,6 +311,15 @@ HARNESSES = [
                 'if (x) do\n y=1\nend\nz=2\n', 'if x do y=1 end\n',
                 'if x -- c\n do y=1 else z=2 end')] +
             [dict(Q, src=s) for s in P8.EVERY] +
+            # programs that end right after their last token (no final line
+            # end, blank or comment): every line of the seed programs as
+            # the last line
+            [dict(Q, src=s) for s in NO_TAIL] +
+            # white space inside tokens
+            [dict(Q, src=s) for s in (
+                's=[[ab  \n  cd \n]] t="a  b " u=\'  \'\n',
+                'do\n s=[==[x \n\n  y\t\n]==]\nend\n',
+                'x=1 --[[ c  \n  d ]] y=2 -- e  f  \nz="  "\n')] +
             [dict(Q, src=s.replace(' ', '  --c\n ').replace('\n', ' \n\n'))
              for s in P8.EVERY]),
     Harness('cli', cli, quick=[Q]),
